@@ -817,13 +817,13 @@ func Run(r *core.Run) {
 		{Config: "ModuleSem.qesm.cfg", Timeout: 900, Quota: 500, Quick: true},
 		{Config: "ModuleSem.qmixed.cfg", Timeout: 900, Quota: 500, Quick: true},
 		{Config: "ModuleSem.qstar.cfg", Timeout: 900, Quota: 400, Quick: true},
-		{Config: "ModuleSem.simmixed.cfg", Simulate: fmt.Sprintf("num=%d", r.Pick(300, 3000)), Depth: 300, Timeout: 1500, Quota: 2000},
-		{Config: "ModuleSem.simesm.cfg", Simulate: "num=2500", Depth: 300, Timeout: 1500, Thorough: true, Quota: 1000},
-		{Config: "ModuleSem.esm2.cfg", Timeout: 1500, Thorough: true, Quota: 3000},
-		{Config: "ModuleSem.mixed2.cfg", Timeout: 1500, Thorough: true, Quota: 3500},
-		{Config: "ModuleSem.cyc3.cfg", Timeout: 1500, Thorough: true, Quota: 1500},
-		{Config: "ModuleSem.star3.cfg", Timeout: 1500, Thorough: true, Quota: 1500},
-		{Config: "ModuleSem.cjs3.cfg", Timeout: 1500, Thorough: true, Quota: 1500},
+		{Config: "ModuleSem.simmixed.cfg", Simulate: fmt.Sprintf("num=%d", r.Pick(300, 2000)), Depth: 300, Timeout: 1500, Quota: 2000},
+		{Config: "ModuleSem.simesm.cfg", Simulate: "num=1500", Depth: 300, Timeout: 1500, Thorough: true, Quota: 1000},
+		{Config: "ModuleSem.esm2.cfg", Timeout: 1500, Thorough: true, Quota: 2500},
+		{Config: "ModuleSem.mixed2.cfg", Timeout: 1500, Thorough: true, Quota: 3000},
+		{Config: "ModuleSem.cyc3.cfg", Timeout: 1500, Thorough: true, Quota: 1200},
+		{Config: "ModuleSem.star3.cfg", Timeout: 1500, Thorough: true, Quota: 1200},
+		{Config: "ModuleSem.cjs3.cfg", Timeout: 1500, Thorough: true, Quota: 1200},
 	}
 	var active []genCfg
 	for _, gc := range gens {
